@@ -182,6 +182,16 @@ func buildAPIPool(c *Ctx, p *Profile, sch *Schema, dir string) *apiPool {
 			add(b[:len(b)/2], "long plain activity, truncated in the middle")
 		}
 	}
+	// inputs that end inside their header (different lengths, both header sizes): the error
+	// a call returns is its own, not an object shared with calls that fail the same way
+	{
+		act := mustRead(filepath.Join(repoDir, "testdata/fitsdk/Activity.fit"))
+		add(act[:5], "fitsdk/Activity.fit cut inside the header (5 bytes)")
+		add(act[:9], "fitsdk/Activity.fit cut inside the header (9 bytes)")
+		s := newStream(14, true)
+		s.FileId(0, 0, 4)
+		add(s.Bytes()[:13], "14-byte header cut before its last byte")
+	}
 	add(c12Stream(rng, 0).Bytes(), "timestamp stream (activity)")
 	add(c12Stream(rng, 1).Bytes(), "timestamp stream (schedules, local times with varying offsets)")
 	g := &generator{rng: rng, p: p, sch: sch, k: defaultKnobs()}
